@@ -18,8 +18,8 @@ def check(chk):
     r35(chk, m)
     # the number scanners used by \\ifnum/\\ifdim/\\ifcase: sign discipline (shared with C05)
     from . import c05
-    c05.r56(chk, m, rule_id='R3.7')
     from . import shared, c04
+    shared.number_rules(chk, m, 'R3.7')
     shared.sign_rules(chk, m, 'R3.8')
     # \ifdefined / \ifcsname / \newif look names up through the chain of frames (shared with C04)
     c04.chain_rules(chk, m, 'R3.9')
